@@ -50,6 +50,7 @@ class Driver:
         self.n_files = 0
         self.restarts = 0
         self.events = []
+        self.downgraded = False
 
     # -- building -----------------------------------------------------------
     def build_nodata(self, spec, overrides=None, cycles=None):
@@ -63,8 +64,16 @@ class Driver:
         self.model = self.actor.call(make)
         return self.model
 
-    def build_xlsx(self, spec, stored, overrides=None, name='book.xlsx', cycles=None):
+    def build_xlsx(self, spec, stored, overrides=None, name='book.xlsx', cycles=None,
+                   strict=True):
         from pycel import ExcelCompiler
+        if strict and any('f' in c and stored.get(c['a']) is None for c in spec['cells']):
+            # a formula whose result is empty (=A1:A3 over a blank cell) or unknown: a file
+            # written by Excel would carry a cached value for it, ours would not while the
+            # dependants have one - not a consistent file.  Histories that write inputs fall
+            # back to the workbook without stored results.
+            self.downgraded = True
+            return self.build_nodata(spec, overrides, cycles)
         path = os.path.join(self.tmpdir, name)
         wbgen.to_xlsx(spec, path, stored, overrides)
 
